@@ -103,6 +103,9 @@ def pattern_matches(repo: Repo, relpath: str, p: ast.pattern, v: Any) -> bool:
 
 _ANC_CACHE: dict[tuple[int, str], set[str]] = {}
 
+# Python builtins whose subclass relation matters for the order of `case` arms
+BUILTIN_ANCESTORS = {'bool': {'int'}}
+
 
 def class_ancestors(repo: Repo, clsname: str) -> set[str]:
     """Names of all repository ancestors of the (uniquely named) class `clsname`."""
@@ -112,7 +115,7 @@ def class_ancestors(repo: Repo, clsname: str) -> set[str]:
         repo._anc_cache = cache  # type: ignore
     if clsname in cache:
         return cache[clsname]
-    out: set[str] = set()
+    out: set[str] = set(BUILTIN_ANCESTORS.get(clsname, ()))
     for rel, q, c in repo.all_classes():
         if q == clsname:
             for _, k in repo.mro(rel, q):
